@@ -3,9 +3,9 @@
     vector block stores the concatenation of W consecutive elements at i*w, then the vector kernel (main loop +
     scalar remainder) returns what the scalar loop returns, without a fault, for every count.
     Instances: fill_def_levels, unpack_bools (SSE/AVX2/AVX-512), dictionary gathers. *)
-From Coq Require Import NArith List Arith Lia Bool.
+From Coq Require Import NArith ZArith List Arith Lia Bool ZifyBool ZifyNat ZifyN.
 From Carquet Require Import Base.Res Simd.Vec Simd.X86Sem Simd.ScalarKernels Simd.SseKernels Simd.Avx2Kernels
-  Simd.Avx512Kernels.
+  Simd.Avx512Kernels Simd.BitLemmas.
 Import ListNotations.
 Local Open Scope nat_scope.
 
@@ -89,7 +89,7 @@ Variables (step block : nat -> list N -> res (list N)) (W : nat).
 Hypothesis Hw : 0 < w.
 Hypothesis HW : 0 < W.
 Hypothesis Hstep : forall i out, i < count -> length out = w * count -> step i out = Ok (upd out (i * w) (elem i)).
-Hypothesis Hblock : forall i out, i + W <= count -> length out = w * count ->
+Hypothesis Hblock : forall i out, i mod W = 0 -> i + W <= count -> length out = w * count ->
                                   block i out = Ok (upd out (i * w) (flat_map elem (seq i W))).
 
 Lemma seq_step_inv i out : i < count -> Pseq i out -> exists o, step i out = Ok o /\ Pseq (i + 1) o.
@@ -103,12 +103,415 @@ Theorem seq_kernel_eq out0 :
   exists out, simd_loop W count block step out0 = Ok out /\ scalar_loop count step out0 = Ok out.
 Proof.
   intros L.
-  destruct (simd_loop_inv Pseq W count block step out0 HW (Pseq_0 out0 L)) as [o1 [E1 P1]].
-  - intros j s0 Hj HP. pose proof HP as [L' _]. rewrite Hblock by assumption. eexists. split; [reflexivity|].
+  destruct (simd_loop_inv_div Pseq W count block step out0 HW (Pseq_0 out0 L)) as [o1 [E1 P1]].
+  - intros j s0 Hm Hj HP. pose proof HP as [L' _]. rewrite Hblock by assumption. eexists. split; [reflexivity|].
     apply Pseq_block; assumption.
   - intros j s0 Hj HP. apply seq_step_inv; assumption.
   - destruct (scalar_loop_inv Pseq count step out0 (Pseq_0 out0 L)) as [o2 [E2 P2]].
     + intros j s0 Hj HP. apply seq_step_inv; assumption.
     + exists o1. split; [exact E1|]. rewrite E2. f_equal. apply Pseq_final; assumption.
 Qed.
+
+(** kernels with two vector loops of decreasing width before the scalar remainder *)
+Variables (block2 : nat -> list N -> res (list N)) (W2 : nat).
+Hypothesis HW2 : 0 < W2.
+Hypothesis Hblock2 : forall i out, i + W2 <= count -> length out = w * count ->
+                                   block2 i out = Ok (upd out (i * w) (flat_map elem (seq i W2))).
+
+Theorem seq_kernel3_eq out0 :
+  length out0 = w * count ->
+  exists out,
+    bind (iter_blocks (count / W) W 0 block out0) (fun o =>
+    bind (iter_blocks ((count - W * (count / W)) / W2) W2 (W * (count / W)) block2 o) (fun o =>
+    iter_blocks (count - (W * (count / W) + W2 * ((count - W * (count / W)) / W2))) 1
+                (W * (count / W) + W2 * ((count - W * (count / W)) / W2)) step o)) = Ok out /\
+    scalar_loop count step out0 = Ok out.
+Proof.
+  intros L.
+  pose proof (Nat.mul_div_le count W ltac:(lia)) as Hle.
+  set (i1 := W * (count / W)) in *.
+  pose proof (Nat.mul_div_le (count - i1) W2 ltac:(lia)) as Hle2.
+  set (n2 := (count - i1) / W2) in *.
+  destruct (iter_blocks_inv (fun j s => Pseq j s /\ j mod W = 0) block W (count / W) 0 out0) as [o1 [E1 [P1 _]]].
+  { split; [exact (Pseq_0 out0 L)|]. apply Nat.mod_0_l. lia. }
+  { intros j s0 _ H2 [HP Hm]. pose proof HP as [L' _].
+    cbn in H2. rewrite (Nat.mul_comm (count / W) W) in H2. fold i1 in H2.
+    rewrite Hblock by (try exact L'; try exact Hm; lia).
+    eexists. split; [reflexivity|]. split; [apply Pseq_block; [lia|exact HP]|].
+    rewrite <- Nat.add_mod_idemp_l by lia. rewrite Hm. cbn [plus]. apply Nat.mod_same. lia. }
+  rewrite E1. cbn [bind]. cbn [plus] in P1. rewrite (Nat.mul_comm (count / W) W) in P1. fold i1 in P1.
+  destruct (iter_blocks_inv Pseq block2 W2 n2 i1 o1 P1) as [o2 [E2 P2]].
+  { intros j s0 H1 H2 HP. pose proof HP as [L' _]. rewrite (Nat.mul_comm n2 W2) in H2.
+    rewrite Hblock2 by (try exact L'; lia). eexists. split; [reflexivity|]. apply Pseq_block; [lia|exact HP]. }
+  rewrite E2. cbn [bind]. rewrite (Nat.mul_comm n2 W2) in P2.
+  destruct (iter_blocks_inv Pseq step 1 (count - (i1 + W2 * n2)) (i1 + W2 * n2) o2 P2) as [o3 [E3 P3]].
+  { intros j s0 H1 H2 HP. apply seq_step_inv; [lia|exact HP]. }
+  replace (i1 + W2 * n2 + (count - (i1 + W2 * n2)) * 1) with count in P3 by lia.
+  destruct (scalar_loop_inv Pseq count step out0 (Pseq_0 out0 L)) as [o4 [E4 P4]].
+  { intros j s0 Hj HP. apply seq_step_inv; assumption. }
+  exists o3. split; [exact E3|]. rewrite E4. f_equal. apply Pseq_final; assumption.
+Qed.
 End Seq.
+
+Ltac Zify.zify_post_hook ::= Z.div_mod_to_equations.
+
+(* ------------------------------------------------------------------ small list facts *)
+
+Lemma flat_map_shift {A} (f : nat -> list A) i n : flat_map f (seq i n) = flat_map (fun k => f (i + k)) (seq 0 n).
+Proof.
+  revert f i. induction n as [|n IH]; intros f i; [reflexivity|].
+  cbn [seq flat_map]. rewrite Nat.add_0_r. f_equal. rewrite (IH f (S i)). rewrite (IH (fun k => f (i + k)) 1).
+  apply flat_map_ext. intros k. f_equal. lia.
+Qed.
+
+Lemma flat_map_singleton {A B} (g : A -> B) l : flat_map (fun k => [g k]) l = map g l.
+Proof. induction l as [|x l IH]; [reflexivity|]. cbn. rewrite IH. reflexivity. Qed.
+
+Lemma skipn_add {A} (l : list A) a b : skipn b (skipn a l) = skipn (a + b) l.
+Proof.
+  revert l. induction a as [|a IH]; intro l; [reflexivity|].
+  destruct l as [|x l]; [destruct b; reflexivity|]. cbn [skipn plus]. apply IH.
+Qed.
+
+Lemma sub_sub {A} (l : list A) a n b m : b + m <= n -> sub (sub l a n) b m = sub l (a + b) m.
+Proof.
+  intros H. unfold sub. rewrite skipn_firstn_comm, firstn_firstn, Nat.min_l by lia.
+  rewrite skipn_add. reflexivity.
+Qed.
+
+(* ------------------------------------------------------------------ fill_def_levels *)
+
+Theorem sse_fill_def_levels_eq_scalar count v out0 :
+  length out0 = 2 * count ->
+  exists out, sse_fill_def_levels count v out0 = Ok out /\ scalar_fill_def_levels count v out0 = Ok out.
+Proof.
+  intros L. unfold sse_fill_def_levels, scalar_fill_def_levels.
+  apply (seq_kernel_eq 2 count (fun _ => le_bytes 2 v)); try lia; try exact L.
+  - intros. apply le_bytes_length.
+  - intros i out Hi Lo. unfold fill_step. apply store_ok. rewrite le_bytes_length. lia.
+  - intros i out _ Hi Lo. unfold sse_fill_block, mm_set1_epi16, set1_lanes.
+    rewrite (flat_map_shift (fun _ => le_bytes 2 v) i 8). apply store_ok. cbn [seq flat_map].
+    rewrite !app_length, !le_bytes_length. cbn [length]. lia.
+Qed.
+
+(* ------------------------------------------------------------------ unpack_bools *)
+
+Tactic Notation "dlist" ident(v) hyp(H) integer(n) :=
+  do n (destruct v as [|? v]; [simpl in H; discriminate H|]); destruct v; [|simpl in H; discriminate H]; clear H.
+
+Section Unpack.
+Variables (count : nat) (inp : list N).
+Hypothesis Hinp : length inp = (count + 7) / 8.
+Hypothesis Hbytes : bytes_ok inp.
+
+(** output byte k *)
+Definition unpack_elem (k : nat) : list N := [bit_of (nth (k / 8) inp 0%N) (k mod 8)].
+
+Lemma unpack_step_spec i out :
+  i < count -> length out = 1 * count -> unpack_step inp i out = Ok (upd out (i * 1) (unpack_elem i)).
+Proof.
+  intros Hi Lo. unfold unpack_step. rewrite load1_ok by lia. cbn [bind].
+  rewrite store1_ok by lia. rewrite Nat.mul_1_r. reflexivity.
+Qed.
+
+(** the bytes of a block that starts at a multiple of 8, as a function of the packed bytes it loads *)
+Lemma unpack_elems_block i n :
+  i mod 8 = 0 ->
+  flat_map unpack_elem (seq i n) = map (fun k => bit_of (nth (k / 8) (sub inp (i / 8) ((n + 7) / 8)) 0%N) (k mod 8)) (seq 0 n).
+Proof.
+  intros Hi. rewrite flat_map_shift. unfold unpack_elem. rewrite flat_map_singleton.
+  apply map_ext_in. intros k Hk. apply in_seq in Hk.
+  rewrite nth_sub by lia. f_equal; [f_equal|]; lia.
+Qed.
+
+Lemma min_bits8 (p : N) :
+  [N.min (N.land p 1) 1; N.min (N.land p 2) 1; N.min (N.land p 4) 1; N.min (N.land p 8) 1;
+   N.min (N.land p 16) 1; N.min (N.land p 32) 1; N.min (N.land p 64) 1; N.min (N.land p 128) 1]%N
+  = [bit_of p 0; bit_of p 1; bit_of p 2; bit_of p 3; bit_of p 4; bit_of p 5; bit_of p 6; bit_of p 7].
+Proof.
+  change ([N.min (N.land p (2 ^ 0)) 1; N.min (N.land p (2 ^ 1)) 1; N.min (N.land p (2 ^ 2)) 1; N.min (N.land p (2 ^ 3)) 1;
+           N.min (N.land p (2 ^ 4)) 1; N.min (N.land p (2 ^ 5)) 1; N.min (N.land p (2 ^ 6)) 1; N.min (N.land p (2 ^ 7)) 1]%N
+          = [bit_of p 0; bit_of p 1; bit_of p 2; bit_of p 3; bit_of p 4; bit_of p 5; bit_of p 6; bit_of p 7]).
+  rewrite !min_land_pow2, !bit_of_testbit. reflexivity.
+Qed.
+
+Lemma sse_unpack_block_compute (p0 p1 : N) :
+  (p0 < 256)%N -> (p1 < 256)%N ->
+  mm_min_epu8 (mm_and (mm_shuffle_epi8 (mm_set1_epi16 (le_num [p0; p1])) shuf_bytes01) bit_mask16) (set1_epi8 16 1)
+  = map (fun k => bit_of (nth (k / 8) [p0; p1] 0%N) (k mod 8)) (seq 0 16).
+Proof.
+  intros H0 H1.
+  assert (E : mm_set1_epi16 (le_num [p0; p1]) = [p0; p1; p0; p1; p0; p1; p0; p1; p0; p1; p0; p1; p0; p1; p0; p1]).
+  { unfold mm_set1_epi16, set1_lanes. cbn [seq flat_map].
+    change 2%nat with (length [p0; p1]). rewrite le_bytes_le_num by (repeat constructor; assumption). reflexivity. }
+  rewrite E.
+  change (mm_min_epu8 (mm_and (mm_shuffle_epi8 [p0; p1; p0; p1; p0; p1; p0; p1; p0; p1; p0; p1; p0; p1; p0; p1] shuf_bytes01) bit_mask16)
+                      (set1_epi8 16 1))
+    with ([N.min (N.land p0 1) 1; N.min (N.land p0 2) 1; N.min (N.land p0 4) 1; N.min (N.land p0 8) 1;
+           N.min (N.land p0 16) 1; N.min (N.land p0 32) 1; N.min (N.land p0 64) 1; N.min (N.land p0 128) 1] ++
+          [N.min (N.land p1 1) 1; N.min (N.land p1 2) 1; N.min (N.land p1 4) 1; N.min (N.land p1 8) 1;
+           N.min (N.land p1 16) 1; N.min (N.land p1 32) 1; N.min (N.land p1 64) 1; N.min (N.land p1 128) 1])%N.
+  rewrite !min_bits8. reflexivity.
+Qed.
+End Unpack.
+
+Theorem sse_unpack_bools_eq_scalar count inp out0 :
+  length inp = (count + 7) / 8 -> bytes_ok inp -> length out0 = count ->
+  exists out, sse_unpack_bools count inp out0 = Ok out /\ scalar_unpack_bools count inp out0 = Ok out.
+Proof.
+  intros Hinp Hb L. unfold sse_unpack_bools, scalar_unpack_bools.
+  apply (seq_kernel_eq 1 count (unpack_elem inp)); try lia.
+  - intros; reflexivity.
+  - intros i out Hi Lo. apply (unpack_step_spec count inp Hinp); assumption.
+  - intros i out Hm Hi Lo. unfold sse_unpack_bools_block.
+    rewrite load_ok by lia. cbn [bind].
+    rewrite (unpack_elems_block count inp Hinp i 16) by lia. change ((16 + 7) / 8) with 2.
+    pose proof (bytes_ok_sub inp (i / 8) 2 Hb) as Bp.
+    assert (Lp : length (sub inp (i / 8) 2) = 2) by (apply length_sub; lia).
+    destruct (sub inp (i / 8) 2) as [|p0 [|p1 [|? ?]]]; try discriminate Lp.
+    apply bytes_ok_cons in Bp. destruct Bp as [B0 Bp]. apply bytes_ok_cons in Bp. destruct Bp as [B1 _].
+    rewrite sse_unpack_block_compute by assumption.
+    rewrite store_ok by (rewrite map_length, seq_length; lia). rewrite Nat.mul_1_r. reflexivity.
+Qed.
+
+Lemma avx2_unpack_block_compute (p0 p1 p2 p3 : N) :
+  (p0 < 256)%N -> (p1 < 256)%N -> (p2 < 256)%N -> (p3 < 256)%N ->
+  mm_min_epu8 (mm_and (mm256_shuffle_epi8 (mm256_set1_epi32 (le_num [p0; p1; p2; p3])) shuf_bytes0123) bit_mask32) (set1_epi8 32 1)
+  = map (fun k => bit_of (nth (k / 8) [p0; p1; p2; p3] 0%N) (k mod 8)) (seq 0 32).
+Proof.
+  intros H0 H1 H2 H3.
+  assert (E : mm256_set1_epi32 (le_num [p0; p1; p2; p3]) =
+              [p0; p1; p2; p3; p0; p1; p2; p3; p0; p1; p2; p3; p0; p1; p2; p3; p0; p1; p2; p3; p0; p1; p2; p3; p0; p1; p2; p3; p0; p1; p2; p3]).
+  { unfold mm256_set1_epi32, set1_lanes. cbn [seq flat_map].
+    change 4%nat with (length [p0; p1; p2; p3]). rewrite le_bytes_le_num by (repeat constructor; assumption). reflexivity. }
+  rewrite E.
+  match goal with |- ?X = _ =>
+    change X with
+      (([N.min (N.land p0 1) 1; N.min (N.land p0 2) 1; N.min (N.land p0 4) 1; N.min (N.land p0 8) 1;
+         N.min (N.land p0 16) 1; N.min (N.land p0 32) 1; N.min (N.land p0 64) 1; N.min (N.land p0 128) 1] ++
+        [N.min (N.land p1 1) 1; N.min (N.land p1 2) 1; N.min (N.land p1 4) 1; N.min (N.land p1 8) 1;
+         N.min (N.land p1 16) 1; N.min (N.land p1 32) 1; N.min (N.land p1 64) 1; N.min (N.land p1 128) 1]) ++
+       ([N.min (N.land p2 1) 1; N.min (N.land p2 2) 1; N.min (N.land p2 4) 1; N.min (N.land p2 8) 1;
+         N.min (N.land p2 16) 1; N.min (N.land p2 32) 1; N.min (N.land p2 64) 1; N.min (N.land p2 128) 1] ++
+        [N.min (N.land p3 1) 1; N.min (N.land p3 2) 1; N.min (N.land p3 4) 1; N.min (N.land p3 8) 1;
+         N.min (N.land p3 16) 1; N.min (N.land p3 32) 1; N.min (N.land p3 64) 1; N.min (N.land p3 128) 1]))%N end.
+  rewrite !min_bits8. reflexivity.
+Qed.
+
+Theorem avx2_unpack_bools_eq_scalar count inp out0 :
+  length inp = (count + 7) / 8 -> bytes_ok inp -> length out0 = count ->
+  exists out, avx2_unpack_bools count inp out0 = Ok out /\ scalar_unpack_bools count inp out0 = Ok out.
+Proof.
+  intros Hinp Hb L. unfold avx2_unpack_bools, scalar_unpack_bools.
+  apply (seq_kernel_eq 1 count (unpack_elem inp)); try lia.
+  - intros; reflexivity.
+  - intros i out Hi Lo. apply (unpack_step_spec count inp Hinp); assumption.
+  - intros i out Hm Hi Lo. unfold avx2_unpack_bools_block.
+    rewrite load_ok by lia. cbn [bind].
+    rewrite (unpack_elems_block count inp Hinp i 32) by lia. change ((32 + 7) / 8) with 4.
+    pose proof (bytes_ok_sub inp (i / 8) 4 Hb) as Bp.
+    assert (Lp : length (sub inp (i / 8) 4) = 4) by (apply length_sub; lia).
+    destruct (sub inp (i / 8) 4) as [|p0 [|p1 [|p2 [|p3 [|? ?]]]]]; try discriminate Lp.
+    apply bytes_ok_cons in Bp. destruct Bp as [B0 Bp]. apply bytes_ok_cons in Bp. destruct Bp as [B1 Bp].
+    apply bytes_ok_cons in Bp. destruct Bp as [B2 Bp]. apply bytes_ok_cons in Bp. destruct Bp as [B3 _].
+    rewrite avx2_unpack_block_compute by assumption.
+    rewrite store_ok by (rewrite map_length, seq_length; lia). rewrite Nat.mul_1_r. reflexivity.
+Qed.
+
+Theorem avx512_unpack_bools_eq_scalar count inp out0 :
+  length inp = (count + 7) / 8 -> bytes_ok inp -> length out0 = count ->
+  exists out, avx512_unpack_bools count inp out0 = Ok out /\ scalar_unpack_bools count inp out0 = Ok out.
+Proof.
+  intros Hinp Hb L. unfold avx512_unpack_bools, scalar_unpack_bools.
+  apply (seq_kernel_eq 1 count (unpack_elem inp)); try lia.
+  - intros; reflexivity.
+  - intros i out Hi Lo. apply (unpack_step_spec count inp Hinp); assumption.
+  - intros i out Hm Hi Lo. unfold avx512_unpack_bools_block.
+    rewrite load_ok by lia. cbn [bind].
+    rewrite (unpack_elems_block count inp Hinp i 64) by lia. change ((64 + 7) / 8) with 8.
+    pose proof (bytes_ok_sub inp (i / 8) 8 Hb) as Bp.
+    set (packed := sub inp (i / 8) 8) in *.
+    assert (E : mm512_maskz_set1_epi8 (le_num packed) 1 =
+                map (fun k => bit_of (nth (k / 8) packed 0%N) (k mod 8)) (seq 0 64)).
+    { unfold mm512_maskz_set1_epi8. apply map_ext_in. intros k Hk. apply in_seq in Hk.
+      rewrite testbit_le_num by exact Bp. rewrite bit_of_testbit. change (1 mod 256)%N with 1%N.
+      replace (N.to_nat (N.of_nat k / 8)) with (k / 8) by lia.
+      replace (N.of_nat k mod 8)%N with (N.of_nat (k mod 8)) by lia. reflexivity. }
+    rewrite E. rewrite store_ok by (rewrite map_length, seq_length; lia). rewrite Nat.mul_1_r. reflexivity.
+Qed.
+
+(* ------------------------------------------------------------------ dictionary gather *)
+
+Lemma iter_acc (f : nat -> list N -> res (list N)) (e : nat -> list N) : forall n s acc,
+  (forall k a, s <= k < s + n -> f k a = Ok (a ++ e k)) ->
+  iter_blocks n 1 s f acc = Ok (acc ++ flat_map e (seq s n)).
+Proof.
+  induction n as [|n IH]; intros s acc H.
+  - cbn. rewrite app_nil_r. reflexivity.
+  - cbn [iter_blocks seq flat_map]. rewrite H by lia. cbn [bind]. replace (s + 1) with (S s) by lia.
+    rewrite IH by (intros; apply H; lia). rewrite app_assoc. reflexivity.
+Qed.
+
+Section Gather.
+Variables (w count : nat) (dict idxs : list N).
+Hypothesis Hw : 0 < w.
+Hypothesis Hidx : length idxs = 4 * count.
+
+Definition gather_index (i : nat) : N := le_num (sub idxs (i * 4) 4).
+Definition gather_elem (i : nat) : list N := sub dict (N.to_nat (gather_index i) * w) w.
+
+(** the kernel's domain: every index addresses an element of the dictionary (the reader validates this before
+    the call, page_reader.c) *)
+Definition gather_in_range : Prop := forall i, i < count -> N.to_nat (gather_index i) * w + w <= length dict.
+(** ... and, for the hardware gathers, is below 2^31 (dictionary_count is an int32_t) *)
+Definition gather_small : Prop := forall i, i < count -> (gather_index i < 2 ^ 31)%N.
+
+Hypothesis Hrange : gather_in_range.
+
+Lemma gather_elem_length i : i < count -> length (gather_elem i) = w.
+Proof. intros Hi. apply length_sub. apply Hrange. exact Hi. Qed.
+
+Lemma gather_step_spec i out :
+  i < count -> length out = w * count -> gather_step w dict idxs i out = Ok (upd out (i * w) (gather_elem i)).
+Proof.
+  intros Hi Lo. unfold gather_step. rewrite load_ok by lia. cbn [bind].
+  fold (gather_index i). rewrite load_ok by (apply Hrange; exact Hi). cbn [bind].
+  fold (gather_elem i). apply store_ok. rewrite gather_elem_length by exact Hi. nia.
+Qed.
+
+(** n scalar loads assembled into a register (SSE: _mm_set_epi32 / _mm_set_epi64x of scalar loads) *)
+Lemma gather_n_ok n i : i + n <= count -> gather_n w n dict idxs i = Ok (flat_map gather_elem (seq i n)).
+Proof.
+  intros H. unfold gather_n.
+  rewrite (iter_acc _ (fun k => gather_elem (i + k))).
+  - cbn [app]. f_equal. symmetry. apply flat_map_shift.
+  - intros k a Hk. rewrite load_ok by lia. cbn [bind]. fold (gather_index (i + k)).
+    rewrite load_ok by (apply Hrange; lia). reflexivity.
+Qed.
+
+(** the hardware gather of n lanes whose indices were loaded from idxs[i .. i+n) *)
+Lemma hw_gather_ok n i :
+  gather_small -> i + n <= count ->
+  hw_gather w n dict (sub idxs (i * 4) (n * 4)) = Ok (flat_map gather_elem (seq i n)).
+Proof.
+  intros Hs H. unfold hw_gather.
+  rewrite (iter_acc _ (fun k => gather_elem (i + k))).
+  - cbn [app]. f_equal. symmetry. apply flat_map_shift.
+  - intros k a Hk. rewrite sub_sub by lia. replace (i * 4 + k * 4) with ((i + k) * 4) by lia.
+    fold (gather_index (i + k)). pose proof (Hs (i + k) ltac:(lia)) as Hlt.
+    destruct (N.ltb_spec (gather_index (i + k)) (2 ^ 31)) as [_|G]; [|lia].
+    rewrite load_ok by (apply Hrange; lia). reflexivity.
+Qed.
+
+Lemma gather_elems_length i n : i + n <= count -> length (flat_map gather_elem (seq i n)) = n * w.
+Proof. intros H. apply (elems_length w count gather_elem gather_elem_length). exact H. Qed.
+End Gather.
+
+(** carquet_avx2_gather_i32 / _float *)
+Theorem avx2_gather_i32_eq_scalar count dict idxs out0 :
+  length idxs = 4 * count -> gather_in_range 4 count dict idxs -> gather_small count idxs -> length out0 = 4 * count ->
+  exists out, avx2_gather_i32 count dict idxs out0 = Ok out /\ scalar_gather 4 count dict idxs out0 = Ok out.
+Proof.
+  intros Hi Hr Hs L. unfold avx2_gather_i32, scalar_gather.
+  apply (seq_kernel_eq 4 count (gather_elem 4 dict idxs)); try lia.
+  - intros i Hlt. apply (gather_elem_length 4 count dict idxs Hr); assumption.
+  - intros i out Hlt Lo. apply (gather_step_spec 4 count dict idxs ltac:(lia) Hi Hr); assumption.
+  - intros i out _ Hlt Lo. unfold avx2_gather32_block. rewrite load_ok by lia. cbn [bind].
+    change 32 with (8 * 4). rewrite (hw_gather_ok 4 count dict idxs ltac:(lia) Hi Hr 8 i Hs Hlt). cbn [bind].
+    apply store_ok. rewrite (gather_elems_length 4 count dict idxs Hr) by exact Hlt. lia.
+Qed.
+
+(** carquet_avx2_gather_i64 / _double *)
+Theorem avx2_gather_i64_eq_scalar count dict idxs out0 :
+  length idxs = 4 * count -> gather_in_range 8 count dict idxs -> gather_small count idxs -> length out0 = 8 * count ->
+  exists out, avx2_gather_i64 count dict idxs out0 = Ok out /\ scalar_gather 8 count dict idxs out0 = Ok out.
+Proof.
+  intros Hi Hr Hs L. unfold avx2_gather_i64, scalar_gather.
+  apply (seq_kernel_eq 8 count (gather_elem 8 dict idxs)); try lia.
+  - intros i Hlt. apply (gather_elem_length 8 count dict idxs Hr); assumption.
+  - intros i out Hlt Lo. apply (gather_step_spec 8 count dict idxs ltac:(lia) Hi Hr); assumption.
+  - intros i out _ Hlt Lo. unfold avx2_gather64_block. rewrite load_ok by lia. cbn [bind].
+    change 16 with (4 * 4). rewrite (hw_gather_ok 8 count dict idxs ltac:(lia) Hi Hr 4 i Hs Hlt). cbn [bind].
+    apply store_ok. rewrite (gather_elems_length 8 count dict idxs Hr) by exact Hlt. lia.
+Qed.
+
+(** carquet_avx512_gather_i64 / _double *)
+Theorem avx512_gather_i64_eq_scalar count dict idxs out0 :
+  length idxs = 4 * count -> gather_in_range 8 count dict idxs -> gather_small count idxs -> length out0 = 8 * count ->
+  exists out, avx512_gather_i64 count dict idxs out0 = Ok out /\ scalar_gather 8 count dict idxs out0 = Ok out.
+Proof.
+  intros Hi Hr Hs L. unfold avx512_gather_i64, scalar_gather.
+  apply (seq_kernel_eq 8 count (gather_elem 8 dict idxs)); try lia.
+  - intros i Hlt. apply (gather_elem_length 8 count dict idxs Hr); assumption.
+  - intros i out Hlt Lo. apply (gather_step_spec 8 count dict idxs ltac:(lia) Hi Hr); assumption.
+  - intros i out _ Hlt Lo. unfold avx512_gather64_block. rewrite load_ok by lia. cbn [bind].
+    change 32 with (8 * 4). rewrite (hw_gather_ok 8 count dict idxs ltac:(lia) Hi Hr 8 i Hs Hlt). cbn [bind].
+    apply store_ok. rewrite (gather_elems_length 8 count dict idxs Hr) by exact Hlt. lia.
+Qed.
+
+(** carquet_avx512_gather_i32 / _float: 16-wide, then 8-wide, then scalar *)
+Theorem avx512_gather_i32_eq_scalar count dict idxs out0 :
+  length idxs = 4 * count -> gather_in_range 4 count dict idxs -> gather_small count idxs -> length out0 = 4 * count ->
+  exists out, avx512_gather_i32 count dict idxs out0 = Ok out /\ scalar_gather 4 count dict idxs out0 = Ok out.
+Proof.
+  intros Hi Hr Hs L. unfold avx512_gather_i32, scalar_gather.
+  apply (seq_kernel3_eq 4 count (gather_elem 4 dict idxs)); try lia.
+  - intros i Hlt. apply (gather_elem_length 4 count dict idxs Hr); assumption.
+  - intros i out Hlt Lo. apply (gather_step_spec 4 count dict idxs ltac:(lia) Hi Hr); assumption.
+  - intros i out _ Hlt Lo. unfold avx512_gather32_block16. rewrite load_ok by lia. cbn [bind].
+    change 64 with (16 * 4). rewrite (hw_gather_ok 4 count dict idxs ltac:(lia) Hi Hr 16 i Hs Hlt). cbn [bind].
+    apply store_ok. rewrite (gather_elems_length 4 count dict idxs Hr) by exact Hlt. lia.
+  - intros i out Hlt Lo. unfold avx2_gather32_block. rewrite load_ok by lia. cbn [bind].
+    change 32 with (8 * 4). rewrite (hw_gather_ok 4 count dict idxs ltac:(lia) Hi Hr 8 i Hs Hlt). cbn [bind].
+    apply store_ok. rewrite (gather_elems_length 4 count dict idxs Hr) by exact Hlt. lia.
+Qed.
+
+(** carquet_sse_gather_i64 / _double: scalar loads, two 16-byte stores per 4 values *)
+Theorem sse_gather_i64_eq_scalar count dict idxs out0 :
+  length idxs = 4 * count -> gather_in_range 8 count dict idxs -> length out0 = 8 * count ->
+  exists out, sse_gather_i64 count dict idxs out0 = Ok out /\ scalar_gather 8 count dict idxs out0 = Ok out.
+Proof.
+  intros Hi Hr L. unfold sse_gather_i64, scalar_gather.
+  apply (seq_kernel_eq 8 count (gather_elem 8 dict idxs)); try lia.
+  - intros i Hlt. apply (gather_elem_length 8 count dict idxs Hr); assumption.
+  - intros i out Hlt Lo. apply (gather_step_spec 8 count dict idxs ltac:(lia) Hi Hr); assumption.
+  - intros i out _ Hlt Lo. unfold sse_gather64_block4.
+    rewrite (gather_n_ok 8 count dict idxs ltac:(lia) Hi Hr 4 i Hlt). cbn [bind].
+    pose proof (gather_elems_length 8 count dict idxs Hr i 4 Hlt) as Lr.
+    set (r := flat_map (gather_elem 8 dict idxs) (seq i 4)) in *.
+    rewrite store_ok by (rewrite length_sub by lia; lia). cbn [bind].
+    rewrite store_ok by (rewrite length_upd by (rewrite length_sub by lia; lia); rewrite length_sub by lia; lia).
+    f_equal. replace ((i + 2) * 8) with (i * 8 + length (sub r 0 16)) by (rewrite length_sub by lia; lia).
+    rewrite upd_app by (rewrite !length_sub by lia; lia). f_equal.
+    apply (list_eq_nth _ _ 0%N).
+    + rewrite app_length, !length_sub by lia. lia.
+    + intros k Hk. rewrite app_length, !length_sub in Hk by lia.
+      destruct (Nat.lt_ge_cases k 16) as [Lt|Ge].
+      * rewrite app_nth1 by (rewrite length_sub by lia; lia). rewrite nth_sub by lia. reflexivity.
+      * rewrite app_nth2 by (rewrite length_sub by lia; lia). rewrite length_sub by lia.
+        rewrite nth_sub by lia. f_equal. lia.
+Qed.
+
+(** carquet_sse_gather_i32 / _float: 8 per iteration, then 4, then 1 *)
+Theorem sse_gather_i32_eq_scalar count dict idxs out0 :
+  length idxs = 4 * count -> gather_in_range 4 count dict idxs -> length out0 = 4 * count ->
+  exists out, sse_gather_i32 count dict idxs out0 = Ok out /\ scalar_gather 4 count dict idxs out0 = Ok out.
+Proof.
+  intros Hi Hr L. unfold sse_gather_i32, scalar_gather.
+  apply (seq_kernel3_eq 4 count (gather_elem 4 dict idxs)); try lia.
+  - intros i Hlt. apply (gather_elem_length 4 count dict idxs Hr); assumption.
+  - intros i out Hlt Lo. apply (gather_step_spec 4 count dict idxs ltac:(lia) Hi Hr); assumption.
+  - intros i out _ Hlt Lo. unfold sse_gather32_block8.
+    rewrite (gather_n_ok 4 count dict idxs ltac:(lia) Hi Hr 4 i) by lia. cbn [bind].
+    pose proof (gather_elems_length 4 count dict idxs Hr i 4 ltac:(lia)) as L0.
+    rewrite store_ok by (rewrite L0; lia). cbn [bind].
+    rewrite (gather_n_ok 4 count dict idxs ltac:(lia) Hi Hr 4 (i + 4)) by lia. cbn [bind].
+    pose proof (gather_elems_length 4 count dict idxs Hr (i + 4) 4 ltac:(lia)) as L1.
+    rewrite store_ok by (rewrite length_upd by (rewrite L0; lia); rewrite L1; lia).
+    f_equal. replace ((i + 4) * 4) with (i * 4 + length (flat_map (gather_elem 4 dict idxs) (seq i 4))) by (rewrite L0; lia).
+    rewrite upd_app by (rewrite L0, L1; lia). f_equal.
+    change 8 with (4 + 4). rewrite seq_app, flat_map_app. reflexivity.
+  - intros i out Hlt Lo. unfold sse_gather32_block4.
+    rewrite (gather_n_ok 4 count dict idxs ltac:(lia) Hi Hr 4 i Hlt). cbn [bind].
+    apply store_ok. rewrite (gather_elems_length 4 count dict idxs Hr) by exact Hlt. lia.
+Qed.
